@@ -62,7 +62,7 @@ def part_ranges(traj, parts):
         pp = np.array(p.positions)
         n = len(pp)
         found = None
-        for s in [stop] + list(range(0, len(src) - n + 1)):
+        for s in list(range(stop, len(src) - n + 1)) + list(range(0, stop)):
             if 0 <= s <= len(src) - n and np.array_equal(src[s:s + n], pp):
                 found = s
                 break
